@@ -285,9 +285,13 @@ def showTrace (cfg : SolverCfg Float) (tr : List (Attempt Float)) (limit : Nat) 
   " ".intercalate ((tr.take limit).map fun a =>
     "[" ++ showFs (a.matrix.toList.flatMap fun r => fromRankOrder cfg.la.A aset r) ++ "]")
 
-def solveCase : P String := do
+/-- `solve` (reordering off, species `s<i>` declared at position perm[i], direct index access) and `bsolve`
+    (`byName`: the user path — tolerances are species properties, a negative input meaning "no property"; the builder
+    may reorder the state; concentrations go in and out through the built name map) -/
+def solveCaseG (byName : Bool) : P String := do
   let integ ← nat           -- 0 rosenbrock, 1 backward euler
   let L ← nat; let csc ← boolT; let kind := luKindOf (← nat)
+  let reorder ← if byName then boolT else pure false
   let clamp ← boolT         -- Solver::Solve (with Max(0)) or the 3-argument overload (no clamp)
   let ncell ← nat; let ns ← nat
   let perm ← nats ns
@@ -296,9 +300,20 @@ def solveCase : P String := do
   let k ← flts (ncell * nrx); let y ← flts (ncell * ns)
   let atol ← flts ns; let rtol ← flt; let dt ← flt
   let traceLimit ← nat
-  match ProcessSet.build mech (nameMapOf perm) with
-  | .error e => pure (errStr e.toErr)
-  | .ok t =>
+  -- by name: `SolverBuilder::Build` on the system that declares `s<i>` at position perm[i]
+  let decl : List (SpeciesDecl Float) := (List.range ns).map fun j =>
+    let i := (perm.idxOf j)
+    { name := s!"s{i}", param := false, atol := if atol.getD i 0.0 < 0.0 then none else some (atol.getD i 0.0) }
+  let built : Except Err (PSTables Float × List Nat × Option (Array Float)) :=
+    if byName then
+      (build (1.0e-3 : Float) (fun ps => (List.range ps.length).map fun i => s!"r{i}")
+        { system := some { gas := decl, phases := [] }, reactions := some mech, ignoreUnused := true, reorder }).map
+        fun b => (b.tables, (List.range ns).map (fun i => (nmLookup b.speciesMap s!"s{i}").getD 0), some b.atol)
+    else
+      ((ProcessSet.build mech (nameMapOf perm)).mapError PSErr.toErr).map fun t => (t, perm, none)
+  match built with
+  | .error e => pure (errStr e)
+  | .ok (t, perm, batol) =>
   match mkCfg ns L csc kind t with
   | .error e => pure (errStr e)
   | .ok pr =>
@@ -306,7 +321,7 @@ def solveCase : P String := do
     let toIdx := fun (row : List Float) => ((perm.zip row).foldl (fun a pv => wr a pv.1 pv.2) (Array.replicate ns 0.0))
     let K := matOf ncell nrx k
     let Y : Mat Float := ((List.range ncell).map fun c => toIdx ((y.drop (c * ns)).take ns)).toArray
-    let atol := (toIdx atol).toList
+    let atol := match batol with | some a => a.toList | none => (toIdx atol).toList
     let res ← if integ == 0 then do
         let p ← rosParamsP
         pure (rosSolve floatOps floatConsts pr.cfg p K atol.toArray rtol dt Y (freshScratch pr.cfg ncell p.stages 0.0) 200000)
@@ -318,7 +333,11 @@ def solveCase : P String := do
     -- per attempted Rosenbrock step: the alpha handed to AlphaMinusJacobian and the error norm (first 48)
     let att := if integ == 0 && traceLimit > 0 then
         " ".intercalate ((res.trace.take 48).map fun a => s!"{showF a.alpha}:{showF a.error}") else ""
-    pure s!"solve status={statusStr res.status} final={showF res.finalTime} stats={showStats res.stats} y={showMat Yf} trace={showTrace pr.cfg res.trace traceLimit} att={att}"
+    let extra := if byName then s!" col={showNs perm} atol={showFs (perm.map fun i => atol.getD i 0.0)}" else ""
+    pure s!"solve status={statusStr res.status} final={showF res.finalTime} stats={showStats res.stats} y={showMat Yf}{extra} trace={showTrace pr.cfg res.trace traceLimit} att={att}"
+
+def solveCase : P String := solveCaseG false
+def bsolveCase : P String := solveCaseG true
 
 def runLine (line : String) : String :=
   let toks := (line.trimAscii.toString.splitOn " ").filter (· != "")
@@ -332,6 +351,7 @@ def runLine (line : String) : String :=
       | "jacobian" => jacobianCase
       | "lu" => luCase
       | "solve" => solveCase
+      | "bsolve" => bsolveCase
       | _ => pure "bad-op"
     (p.run rest).1
 
